@@ -16,9 +16,11 @@ def make_wl(rng, k):
         spec["pre_ids"] = 1
     spec["novel_gene_overlap"] = rng.choice([1, 2])
     if k is not None and k % 4 == 0:
-        # a reference isoform seen in two processing regions of one read island; a reference transcript with a 1-bp exon
-        spec["long_locus"] = 2
+        # a reference isoform seen in two processing regions of one read island (k % 8 == 4: plus an unannotated isoform of that
+        # gene, found in the second region only, that reaches beyond the gene's annotated end); a reference transcript with a 1-bp exon
+        spec["long_locus"] = 3 if k % 8 == 4 else 2
         spec["tiny_exon"] = 1
+        spec["polya"] = 1
     if k is not None:
         spec["gene_naming"] = k % 3
         spec["drop_chr_annotation"] = 1 if k % 3 == 1 else 0
@@ -37,6 +39,9 @@ def make_wl(rng, k):
 
 def attrs(probs, spec, opts, cell, res):
     p = probs[0]
+    if all(re.search(r"transcript_models\.gtf: gene \S+ \(\d+-\d+\) does not contain transcript \S+\.(nic|nnic) ", q + " ") for q in probs):
+        # every problem of this run: the streamed gene record of transcript_models.gtf is too short for a NOVEL transcript
+        return {"kind": "gene record of transcript_models.gtf does not contain a novel transcript", "file": "<prefix>.transcript_models.gtf"}
     return {"kind": re.sub(r"[0-9]+", "N", p.split(": ", 1)[-1])[:50], "file": re.sub(r"^[^/]*/[^.]*\.", "<prefix>.", p.split(":")[0])}
 
 
